@@ -33,8 +33,12 @@ func (w *c15World) callSites(f *c15Fn) []c15CallSite {
 	return out
 }
 
-// proveInRange proves that index expression `index` is below len(container) at pos, both written in env.fn:
-// by a controlling test in env.fn, or, for an unexported function, by a controlling test at every call site.
+// c15NegMsg explains why a guard of the upper bound alone is not enough.
+const c15NegMsg = "only the upper bound is established: Update.Index is a signed int read from xml/json, and a negative index indexes the list and panics instead of being reported/skipped (the guard must exclude `index < 0` as well, or compare unsigned)"
+
+// proveInRange proves 0 <= index < len(container) at pos, both written in env.fn: by controlling tests in env.fn,
+// by finite-domain evaluation of env.fn (the use is unreachable for an index at or beyond the length, and for a
+// negative index), or, for an unexported function, by controlling tests at every call site.
 func (w *c15World) proveInRange(env *c15Env, pos token.Pos, container, index ast.Expr, depth int) (string, string) {
 	P := w.r.P
 	f := env.fn
@@ -42,40 +46,66 @@ func (w *c15World) proveInRange(env *c15Env, pos token.Pos, container, index ast
 	if ip == nil || cp == nil {
 		return "", "the indexed value or the index is not a plain variable path"
 	}
-	if fact := w.inRangeFact(w.factsFor(env, pos), ip, cp); fact != nil {
-		// neither the container nor the update is reassigned between the test and the use
-		if fact.pos < pos {
-			if what := w.changedBetween(env, []*c15Path{cp, ip}, fact.pos, pos); what != "" {
-				return "", "`" + what + "` between the range test and the use changes the indexed value or the index"
-			}
-		}
+	show := func(fact *c15Fact) string {
 		neg := ""
 		if !fact.val {
 			neg = "the false edge of "
 		}
-		return "controlled by " + neg + "`" + src(P.Fset, fact.expr) + "` (" + P.Rel(fact.pos) + ")", ""
+		return neg + "`" + src(P.Fset, fact.expr) + "` (" + P.Rel(fact.pos) + ")"
 	}
-	// finite-domain proof: evaluated with "index not below len(container)", no path from the entry of the function
-	// reaches the use (helpers that return an error / a boolean are summarised under the same input)
-	if n, _, _ := f.nodeAt(pos); n != nil {
-		o := &c15Oracle{w: w, rng: -1, rngIdx: ip, rngCont: cp}
-		wk := w.walk(f.g.Blocks[0], 0, c15WalkOpt{env: env, oracle: o})
-		if !wk.visited[n] {
-			if what := w.changedBetween(env, []*c15Path{cp, ip}, f.fi.Decl.Body.Pos(), pos); what != "" {
-				return "", "`" + what + "` before the use changes the indexed value or the index"
-			}
-			return "unreachable from the entry of " + f.name() + " when evaluated with `" + src(P.Fset, index) + " >= len(" + src(P.Fset, container) + ")`", ""
+	facts := w.factsFor(env, pos)
+	upper, lower := w.rangeFacts(facts, ip, cp)
+	if upper != nil && lower != nil {
+		// neither the container nor the update is reassigned between the tests and the use
+		first := upper.pos
+		if lower.pos < first {
+			first = lower.pos
 		}
+		if first < pos {
+			if what := w.changedBetween(env, []*c15Path{cp, ip}, first, pos); what != "" {
+				return "", "`" + what + "` between the range test and the use changes the indexed value or the index"
+			}
+		}
+		if upper == lower {
+			return "controlled by " + show(upper) + ", an unsigned comparison that excludes negative indexes too", ""
+		}
+		return "controlled by " + show(upper) + " and " + show(lower), ""
 	}
-	if wf := w.wrappingFact(w.factsFor(env, pos), ip, cp); wf != nil {
+	// finite-domain proof: evaluated with "index at or beyond len(container)" and with "index negative", no path from
+	// the entry of the function reaches the use (helpers that return an error / a boolean are summarised)
+	unreachable := func(side int) bool {
+		n, _, _ := f.nodeAt(pos)
+		if n == nil {
+			return false
+		}
+		o := &c15Oracle{w: w, rng: side, rngIdx: ip, rngCont: cp}
+		return !w.walk(f.g.Blocks[0], 0, c15WalkOpt{env: env, oracle: o}).visited[n]
+	}
+	hi := upper != nil || unreachable(c15High)
+	lo := lower != nil || unreachable(c15Neg)
+	if hi && lo {
+		if what := w.changedBetween(env, []*c15Path{cp, ip}, f.fi.Decl.Body.Pos(), pos); what != "" {
+			return "", "`" + what + "` before the use changes the indexed value or the index"
+		}
+		return "unreachable from the entry of " + f.name() + " when evaluated with `" + src(P.Fset, index) + " >= len(" + src(P.Fset, container) + ")` and with `" + src(P.Fset, index) + " < 0`", ""
+	}
+	if wf := w.wrappingFact(facts, ip, cp); wf != nil {
 		return "", "the controlling test `" + src(P.Fset, wf.expr) + "` (" + P.Rel(wf.expr.Pos()) + ") compares the index, converted to an unsigned type, with len-1: for an empty list len-1 wraps to the largest value and every index passes, so it does not establish `" + src(P.Fset, index) + " < len(" + src(P.Fset, container) + ")`"
 	}
+	if hi && !lo {
+		how := "evaluation with an index at or beyond the length"
+		if upper != nil {
+			how = show(upper)
+		}
+		return "", "guarded by " + how + ", but " + c15NegMsg
+	}
+	none := "no controlling test establishes `0 <= " + src(P.Fset, index) + " < len(" + src(P.Fset, container) + ")`"
 	if f.fi.Obj.Exported() || depth >= 2 || env.parent != nil {
-		return "", "no controlling test establishes `" + src(P.Fset, index) + " < len(" + src(P.Fset, container) + ")`"
+		return "", none
 	}
 	sites := w.callSites(f)
 	if len(sites) == 0 {
-		return "", "no controlling test establishes `" + src(P.Fset, index) + " < len(" + src(P.Fset, container) + ")` and " + f.name() + " has no static caller"
+		return "", none + " and " + f.name() + " has no static caller"
 	}
 	proof := ""
 	for _, cs := range sites {
@@ -85,11 +115,14 @@ func (w *c15World) proveInRange(env *c15Env, pos token.Pos, container, index ast
 		if ip2 == nil || cp2 == nil {
 			return "", "cannot map the operands to the caller " + cs.caller.name()
 		}
-		fact := w.inRangeFact(w.factsFor(cenv, cs.call.Pos()), ip2, cp2)
-		if fact == nil {
+		up, low := w.rangeFacts(w.factsFor(cenv, cs.call.Pos()), ip2, cp2)
+		if up == nil {
 			return "", "no controlling test in " + f.name() + " and the call at " + P.Rel(cs.call.Pos()) + " is not controlled by a range test either"
 		}
-		proof += "call at " + P.Rel(cs.call.Pos()) + " controlled by `" + src(P.Fset, fact.expr) + "`; "
+		if low == nil && !lo {
+			return "", "the call at " + P.Rel(cs.call.Pos()) + " is guarded by " + show(up) + ", but " + c15NegMsg
+		}
+		proof += "call at " + P.Rel(cs.call.Pos()) + " controlled by `" + src(P.Fset, up.expr) + "`; "
 	}
 	return "every caller tests the range: " + proof, ""
 }
@@ -168,7 +201,7 @@ func c15U3(r *core.R) {
 			proof, why := w.proveInRange(env, u.ix.Pos(), u.ix.X, u.ix.Index, 0)
 			if why != "" {
 				failed[c] = true
-				r.Bad(c, u.ix.Pos(), "`%s` in %s: %s: an update index beyond the child list indexes memory instead of being reported/skipped", src(r.P.Fset, u.ix), f.name(), why)
+				r.Bad(c, u.ix.Pos(), "`%s` in %s: %s: an update index outside [0, len) indexes memory or panics instead of being reported/skipped", src(r.P.Fset, u.ix), f.name(), why)
 				continue
 			}
 			if okCount[c] == 0 {
@@ -202,9 +235,18 @@ func c15U3(r *core.R) {
 		site, l := h.site, h.site.loop
 		bad := ""
 		var ret0 *ast.ReturnStmt
+		type oobCase struct {
+			ord  c15Ord
+			side int
+		}
+		var cases []oobCase
 		for _, ord := range h.ords {
+			cases = append(cases, oobCase{ord, c15High}, oobCase{ord, c15Neg})
+		}
+		for _, oc := range cases {
+			ord := oc.ord
 			o := w.oracleFor(h, ord)
-			o.rng = -1
+			o.rng = oc.side
 			wk := w.walk(l.entry, 0, c15WalkOpt{env: site.env, loop: l, oracle: o, follow: true})
 			returns, implicit := wk.returns, wk.implicit
 			var nonNil types.Object
@@ -233,14 +275,18 @@ func c15U3(r *core.R) {
 				bad = "no return is reached"
 			}
 			if bad != "" {
-				bad = "for an update stamped " + ord.String() + " whose Index is not below the length of the child list, " + bad
+				which := "is not below the length of the child list"
+				if oc.side == c15Neg {
+					which = "is negative (the field is a signed int read from xml/json)"
+				}
+				bad = "for an update stamped " + ord.String() + " whose Index " + which + ", " + bad
 				break
 			}
 		}
 		if bad != "" {
-			r.Bad(c, l.pos(), "%s: an index beyond the child list must be reported as an error by %s", bad, name)
+			r.Bad(c, l.pos(), "%s: an index outside [0, len) must be reported as an error by %s", bad, name)
 		} else {
-			r.OK(c, l.pos(), "evaluated with Index out of range (helpers summarised under the same input): every path of the in-time handling ends in a return with a non-nil error (`%s`)", src(r.P.Fset, ret0))
+			r.OK(c, l.pos(), "evaluated with Index at or beyond the length and with Index negative (helpers summarised under the same input): every path of the in-time handling ends in a return with a non-nil error (`%s`)", src(r.P.Fset, ret0))
 		}
 	}
 }
